@@ -87,6 +87,10 @@ func runConfig(c *vf.Ctx, cs cfgSpec, s int, nblocks int) {
 		return
 	}
 	g := rig.NewGen(w, c.Rand("gen/"+name))
+	if cs.postlock {
+		// most accounts hold a stake and votes when the lock period ends
+		g.Kinds = []string{"stake", "stake", "stake", "votebp", "votedao", "xfer", "name", "stake-small", "xfer-self"}
+	}
 	// probe set U: every generated account, system accounts, coinbase
 	var U [][]byte
 	for _, a := range w.Accts {
@@ -119,12 +123,16 @@ func runConfig(c *vf.Ctx, cs cfgSpec, s int, nblocks int) {
 			val.Kill()
 			val = prod
 			g.Staked = map[int]bool{}
-			g.Kinds = []string{"unstake", "unstake", "stake", "votebp", "votedao", "xfer", "unstake", "name", "name-update"}
+			// first only unstakes (any staking operation restarts the lock of the account), later re-stakes and votes
+			g.Kinds = []string{"unstake", "unstake", "unstake", "unstake", "xfer", "name"}
 			if prevDump, err = prod.Dump(nil); err != nil {
 				c.Inconclusive("dump: " + err.Error())
 				return
 			}
 			prevSum = prevDump.Sum()
+		}
+		if cs.postlock && step == 11 {
+			g.Kinds = []string{"unstake", "unstake", "stake", "votebp", "votedao", "xfer", "unstake", "name", "name-update"}
 		}
 		pb, _ := prod.Best()
 		no := pb.No + 1
@@ -173,6 +181,9 @@ func runConfig(c *vf.Ctx, cs cfgSpec, s int, nblocks int) {
 		if rsp.GenErr != "" || rsp.AddErr != "" {
 			c.Inconclusive(fmt.Sprintf("config %s block %d: produce failed gen=%q add=%q", name, no, rsp.GenErr, rsp.AddErr))
 			return
+		}
+		if os.Getenv("C01_DEBUG") != "" && cs.postlock && step >= 8 {
+			fmt.Println("DEBUG", name, step, descs, rsp.SkipErrs)
 		}
 		var statuses []string
 		fees := new(big.Int)
